@@ -7,6 +7,7 @@ compiling and calling parametric families of pipelines at sizes k and 2k, plus t
 import argparse
 import os
 import shutil
+import signal
 import sys
 import time
 
@@ -17,6 +18,13 @@ from common import dump  # noqa
 from connectome import Chain, Filter, GroupBy  # noqa
 
 ROOT = os.path.dirname(os.path.dirname(__import__('connectome').__file__)) + os.sep + 'connectome' + os.sep
+
+
+PHASE_LIMIT = 40
+
+
+class GaveUp(BaseException):
+    pass
 
 
 class Counter:
@@ -103,16 +111,44 @@ def family(name, k, work):
         sympool.TABLE['t039'] = lambda i: 'g'
         field, key = 'ids', None
     c = Counter()
-    (layer, _), n_build = c.measure(lambda: P.build(spec, [root]))
-    g, n_compile = c.measure(lambda: (dir(layer), layer._compile(field))[1])
-    args = () if key is None else (key,)
-    _, n_call = c.measure(lambda: g(*args))
-    t0 = time.process_time()
-    for _ in range(3):
-        g(*args)
-    cpu = (time.process_time() - t0) / 3
+    row = {'family': name, 'k': k, 'build': None, 'compile': None, 'call': None, 'cpu_repeat_call_s': None, 'gave_up_in': None, 'wall_s': {}}
+    phase = 'build'
+
+    def give_up(*_):
+        raise GaveUp()
+
+    # a phase that needs more than PHASE_LIMIT seconds is abandoned and reported as such (the sizes are small: every phase takes well under a second
+    # when its cost is polynomial), so that an exponential phase is reported with its family and size instead of stalling the whole run
+    signal.signal(signal.SIGALRM, give_up)
+    try:
+        signal.alarm(PHASE_LIMIT)
+        t = time.time()
+        (layer, _), row['build'] = c.measure(lambda: P.build(spec, [root]))
+        row['wall_s']['build'] = round(time.time() - t, 3)
+        phase = 'compile'
+        signal.alarm(PHASE_LIMIT)
+        t = time.time()
+        g, row['compile'] = c.measure(lambda: (dir(layer), layer._compile(field))[1])
+        row['wall_s']['compile'] = round(time.time() - t, 3)
+        args = () if key is None else (key,)
+        phase = 'call'
+        signal.alarm(PHASE_LIMIT)
+        t = time.time()
+        _, row['call'] = c.measure(lambda: g(*args))
+        row['wall_s']['call'] = round(time.time() - t, 3)
+        phase = 'repeated call'
+        signal.alarm(PHASE_LIMIT)
+        t0 = time.process_time()
+        for _ in range(3):
+            g(*args)
+        row['cpu_repeat_call_s'] = (time.process_time() - t0) / 3
+    except GaveUp:
+        sys.setprofile(None)
+        row['gave_up_in'] = phase
+    finally:
+        signal.alarm(0)
     shutil.rmtree(root, ignore_errors=True)
-    return {'family': name, 'k': k, 'build': n_build, 'compile': n_compile, 'call': n_call, 'cpu_repeat_call_s': cpu}
+    return row
 
 
 def main():
@@ -126,8 +162,15 @@ def main():
     for name in ('crop', 'crop+ram', 'crop+disk', 'crop+filter', 'crop+groupby', 'chain', 'chain+ram', 'fanin', 'fanin+ram', 'metadiamond'):
         for k in (a.k, 2 * a.k):
             out.append(family(name, k, a.work))
+            if out[-1]['gave_up_in']:
+                break
     # deeper stacks for the disk cache only: a cost of 2^k inside CPython (comparing nested hash values) shows in CPU time from k ~ 20 on
-    deep = [dict(family('smallcrop+disk', k, a.work), deep=True) for k in (11, 22)]
+    deep = []
+    if not any(r['gave_up_in'] for r in out):
+        for k in (11, 22):
+            deep.append(dict(family('smallcrop+disk', k, a.work), deep=True))
+            if deep[-1]['gave_up_in']:
+                break
     dump({'rows': out, 'deep': deep}, a.out)
 
 
